@@ -265,3 +265,68 @@ def c18(code, err, fails, fixed, minimal, forced_category=None):
     if code != want:
         return [{"kind": "exit-code", "detail": {"category": cat, "scheme": "minimal" if minimal else "default", "expected": want, "got": code}}]
     return []
+
+
+def names_file(err, path):
+    for e in err:
+        if isinstance(e, str) and path in e:
+            return True
+    return False
+
+
+def c15_fault(o, inputs, faulted, fault_file, continue_on_error, mode, originals, fixed_alone, other_alone_fails, other_path):
+    """o: observation of the faulty run.  inputs: [paths]; faulted: did the injected fault
+    fire; fault_file: path being processed at the fault (None if not known); originals /
+    fixed_alone: path -> text; other_alone_fails: failures of `other_path` processed without
+    the failing file (5-tuples) or None."""
+    out = []
+    if not faulted:
+        return out
+    if o.code != 1:
+        out.append({"kind": "fault-not-system-error", "detail": {"code": o.code, "fixed": list(o.fixed)}})
+    named = [p for p in inputs if names_file(o.err, p)]
+    if fault_file is not None:
+        if fault_file not in named:
+            out.append({"kind": "error-does-not-name-file", "detail": {"file": fault_file, "err": [e for e in o.err if isinstance(e, str)][:2]}})
+    elif not named:
+        out.append({"kind": "error-names-no-file", "detail": {"err": [e for e in o.err if isinstance(e, str)][:2]}})
+    if continue_on_error and other_alone_fails is not None and fault_file is not None and other_path != fault_file:
+        got = [t[1:] for t in o.fail_tuples(with_file=True) if t[0] == other_path]
+        if not (got == list(other_alone_fails)):
+            out.append({"kind": "other-file-affected", "detail": {"file": other_path, "with_failing_file": [list(x) for x in got][:6], "alone": [list(x) for x in other_alone_fails][:6]}})
+    files = dict_of(o.files)
+    for p in inputs:
+        t = files.get(p)
+        if t is None:
+            out.append({"kind": "input-file-missing", "detail": {"file": p}})
+        elif mode == "fix":
+            if not (t == originals[p]) and not (t == fixed_alone[p]):
+                out.append({"kind": "file-neither-original-nor-fixed", "detail": {"file": p, "content": t, "original": originals[p], "fixed": fixed_alone[p]}})
+        elif not (t == originals[p]):
+            out.append({"kind": "scan-modified-file", "detail": {"file": p, "content": t}})
+    extra = [n for n in files if n not in inputs]
+    if extra:
+        out.append({"kind": "temp-file-left", "detail": {"files": extra}})
+    return out
+
+
+def dict_of(pairs):
+    d = {}
+    for n, t in pairs:
+        d[n] = t
+    return d
+
+
+def c15_crash(files_after, crashed, inputs, originals, fixed_alone):
+    """after the process died during write-back every input is original or completely fixed"""
+    out = []
+    if not crashed:
+        return out
+    files = dict_of(files_after)
+    for p in inputs:
+        t = files.get(p)
+        if t is None:
+            out.append({"kind": "crash-lost-file", "detail": {"file": p}})
+        elif not (t == originals[p]) and not (t == fixed_alone[p]):
+            out.append({"kind": "crash-half-written", "detail": {"file": p, "content": t, "original": originals[p], "fixed": fixed_alone[p]}})
+    return out
